@@ -1,6 +1,7 @@
 import ScVerif.C01.Drv
 import ScVerif.C04.Pull
 import ScVerif.C04.Bus
+import ScVerif.C04.Stall
 /-!
 Driver handler for C04 (stateful): a C01 resource plus its bus (`Bus.lean`): the listeners of the
 backpressured subscriptions opened so far.  `unsub` only marks a listener dead (its context is
@@ -17,7 +18,15 @@ racea|raceb|racec w=<upd|add|del|vset> sname=<k> [srm=<mask>] [suo] … (the wri
 racee w=<upd|add|del|vset> cname=<k> … (the write's keys)   -> parked=… val=… err=… | k1=[…]   (subscriptions still open)
 raced id=<id> [am] [ev=…] [chk=…] u=<upd|add|del> uid=<id> [umsg=<msg>] [ucia] [uwt=<t>]
                                                        -> uval=… uerr=… | k1=[…] || val=… err=… | k1=[…]
+racef sname=<k> [srm=<mask>] [suo] tname=<m> [trm=<mask>] [tuo] order=<12|21>
+                                                       -> seed=[…] seed2=[…]   (two Pulls whose Bus.Listen calls overlap; released in `order`)
+hold name=<k>                                          -> ok            (Value: the consumer of k stops receiving)
+resume name=<k>                                        -> k=[…]         (it receives again: what its forwarder was holding)
 ```
+While a subscription is held its forwarder takes ONE change off the bus and blocks handing it on; the
+next `vset` that announces a change finds it stalled: `Bus.Send` (`Stall.lean`, `sendDl`) gives up at
+the 5 s deadline, `Value.set` answers `val=nil err=Unknown` although the value is stored, the
+subscriptions registered before the stalled one have the change, the others do not.
 -/
 namespace ScVerif.C04
 open ScVerif.C01 ScVerif.Line
@@ -33,6 +42,9 @@ structure Sub where
   last : Option Msg   -- Value.Pull's `last`
   pid : Option String := none   -- PullID: the (intercepted) id
   ended : Bool := false         -- PullID: the stream has ended
+  held : Bool := false          -- the consumer is not receiving (Value)
+  hand : List (VDeliv Msg) := []   -- what the forwarder is blocked handing to a held consumer
+  out : List (VDeliv Msg) := []    -- what the consumer received of the write being announced (transient)
 
 inductive Res
   | none
@@ -79,6 +91,28 @@ def deliverSubV (cfg : FCfg) (eqv : Eqv Msg) (evs : List (VEvent Msg)) (sb : Sub
     | (some d, l) => (acc.1 ++ [d], l)
     | (none, l) => (acc.1, l)) ([], sb.last)
   (s!"{sb.name}={showList (r.1.map showVDeliv)}", { sb with last := r.2 })
+
+/-- one bus event through the forwarding loop of `Value.Pull`, accumulating what is sent on -/
+def fwdStep (cfg : FCfg) (eqv : Eqv Msg) (o : SubOpts Mask) (acc : List (VDeliv Msg) × Option Msg) (e : VEvent Msg) :
+    List (VDeliv Msg) × Option Msg :=
+  match valForward cfg eqv o acc.2 e with
+  | (some d, l) => (acc.1 ++ [d], l)
+  | (none, l) => (acc.1, l)
+
+/-- `l.send` under the deadline of `Value.set`, for one subscription: a held one whose forwarder already
+holds a change does not take another (`none`); a held one with a free forwarder takes it (and keeps it);
+any other forwards to its consumer -/
+def tryV (cfg : FCfg) (eqv : Eqv Msg) (evs : List (VEvent Msg)) (sb : Sub) : Option Sub :=
+  let r := evs.foldl (fwdStep cfg eqv sb.opts) ([], sb.last)
+  if sb.held then
+    if sb.hand.isEmpty then some { sb with last := r.2, hand := r.1, out := [] } else none
+  else some { sb with last := r.2, out := r.1 }
+
+def clearOut (ls : List (Lsn String Sub)) : List (Lsn String Sub) :=
+  ls.map (fun l => { l with st := { l.st with out := [] } })
+
+def showOut (subs : List Sub) : String :=
+  " ".intercalate (subs.map (fun sb => s!"{sb.name}={showList (sb.out.map showVDeliv)}"))
 
 def deliverV (cfg : FCfg) (eqv : Eqv Msg) (subs : List Sub) (evs : List (VEvent Msg)) : String :=
   " ".intercalate (subs.map (fun sb => (deliverSubV cfg eqv evs sb).1))
@@ -243,6 +277,36 @@ def handleOpt (st : DrvState) (toks : List String) : Option (DrvState × String)
       pure ({ st with res := .coll cfg s2, subs := publish (dC cfg st.eqv) subs1 o2.events [] },
             s!"uval={showOptMsg o1.val} uerr={showErr o1.err} | " ++ deliverC cfg st.eqv (live st.subs) o1.events ++
             s!" || val={showOptMsg o2.val} err={showErr o2.err} | " ++ deliverC cfg st.eqv (live subs1) o2.events)
+    | "racef", _ =>
+      -- two Pulls whose `Bus.Listen` calls overlap (both held at bus.listen.beforeRegister, released in
+      -- `order`): `Listen` appends under the bus's write lock, so both are registered, in release order
+      let n1 ← kvGet kv "sname"
+      let n2 ← kvGet kv "tname"
+      let o1 ← raceSubOpts? kv
+      let rm2 ← optKey kv "trm" parseMask?
+      let o2 : SubOpts Mask := { readMask := rm2, updatesOnly := kvHas kv "tuo" }
+      let order ← kvGet kv "order"
+      if order != "12" && order != "21" then none
+      let mk : String → SubOpts Mask → Option (Sub × String) := fun n o =>
+        match st.res with
+        | .coll cfg s => some ({ name := n, opts := o, last := none }, showList ((collSeed cfg s o).map showCEvent))
+        | .val cfg s => let sd := valSeed cfg s o
+                        some ({ name := n, opts := o, last := sd.2 }, showList (sd.1.map showVDeliv))
+        | .none => none
+      let (sb1, seed1) ← mk n1 o1
+      let (sb2, seed2) ← mk n2 o2
+      let subs' := if order == "12" then register (register st.subs n1 sb1) n2 sb2
+                   else register (register st.subs n2 sb2) n1 sb1
+      pure ({ st with subs := subs' }, s!"seed={seed1} seed2={seed2}")
+    | "hold", .val _ _ =>
+      let name ← kvGet kv "name"
+      if !(live st.subs).any (fun sb => sb.name == name) then none
+      pure ({ st with subs := st.subs.map (fun l => if l.id == name && l.alive then { l with st := { l.st with held := true } } else l) }, "ok")
+    | "resume", .val _ _ =>
+      let name ← kvGet kv "name"
+      let sb ← (live st.subs).find? (fun sb => sb.name == name)
+      pure ({ st with subs := st.subs.map (fun l => if l.id == name && l.alive then { l with st := { l.st with held := false, hand := [] } } else l) },
+            s!"{name}={showList (sb.hand.map showVDeliv)}")
     | "newc", _ =>
       let cfg ← parseCfg? kv
       let rng ← parseRng? ((kvGet kv "rng").getD "")
@@ -300,6 +364,12 @@ def handleOpt (st : DrvState) (toks : List String) : Option (DrvState × String)
       let msg ← (kvGet kv "msg").bind parseMsg?
       let wr ← parseWriteReq? kv
       let (o, s') := Value.set cfg s msg wr
+      if (live st.subs).any (·.held) && !o.events.isEmpty then
+        -- a consumer is not receiving: `Bus.Send` under the 5 s deadline of `Value.set`
+        let r := sendDl (tryV cfg st.eqv o.events) (clearOut st.subs)
+        let head := if r.2 then s!"val={showOptMsg o.val} err={showErr o.err} | " else "val=nil err=Unknown | "
+        pure ({ st with res := .val cfg s', subs := r.1 }, head ++ showOut (live r.1))
+      else
       pure ({ st with res := .val cfg s', subs := publish (dV cfg st.eqv) st.subs o.events [] },
             s!"val={showOptMsg o.val} err={showErr o.err} | " ++ deliverV cfg st.eqv (live st.subs) o.events)
     | _, _ => none
